@@ -1,4 +1,5 @@
 import ComposeVerif.Lemmas.NameDotenv
+import ComposeVerif.Lemmas.NameSplit
 import ComposeVerif.Lemmas.NameExamples
 import ComposeVerif.Gen.NameFacts
 import ComposeVerif.Neg.C17
@@ -31,6 +32,50 @@ theorem source_constants_are_modelled :
       ["options.Name != \"\"",
        "nameFromEnv, ok := options.Environment[consts.ComposeProjectName]; ok && nameFromEnv != \"\""] := by
   decide
+
+/-- **the function bodies the model mirrors are the ones in the source now** (printed without comments,
+    regenerated on every run): the option functions of `cli/options.go`, `GetWorkingDir`, `withNamePrecedenceLoad`,
+    `findFiles`, `absolutePaths`, `loader.projectName`, `NormalizeProjectName`, `dotenv.GetEnvFromFile`,
+    `Mapping.Merge`, `utils.GetAsEqualsMap`.  Any edit to one of them breaks this theorem, on top of whatever the
+    correspondence finds. -/
+theorem modelled_functions_are_source :
+    CV.Gen.c17_body_NewProjectOptions =
+      "{ options := &ProjectOptions{ ConfigPaths: configs, Environment: map[string]string{}, Listeners: []loader.Listener{}, } for _, o := range opts { err := o(options) if err != nil { return nil, err } } return options, nil }" ∧
+    CV.Gen.c17_body_WithName =
+      "{ return func(o *ProjectOptions) error { if name != loader.NormalizeProjectName(name) { return loader.InvalidProjectNameErr(name) } o.Name = name return nil } }" ∧
+    CV.Gen.c17_body_WithWorkingDirectory =
+      "{ return func(o *ProjectOptions) error { if wd == \"\" { return nil } abs, err := filepath.Abs(wd) if err != nil { return err } o.WorkingDir = abs return nil } }" ∧
+    CV.Gen.c17_body_WithConfigFileEnv =
+      "{ if len(o.ConfigPaths) > 0 { return nil } sep := o.Environment[consts.ComposePathSeparator] if sep == \"\" { sep = string(os.PathListSeparator) } f, ok := o.Environment[consts.ComposeFilePath] if ok { paths, err := absolutePaths(strings.Split(f, sep)) o.ConfigPaths = paths return err } return nil }" ∧
+    CV.Gen.c17_body_WithDefaultConfigPath =
+      "{ if len(o.ConfigPaths) > 0 { return nil } pwd, err := o.GetWorkingDir() if err != nil { return err } for { candidates := findFiles(DefaultFileNames, pwd) if len(candidates) > 0 { winner := candidates[0] if len(candidates) > 1 { logrus.Warnf(\"Found multiple config files with supported names: %s\", strings.Join(candidates, \", \")) logrus.Warnf(\"Using %s\", winner) } o.ConfigPaths = append(o.ConfigPaths, winner) overrides := findFiles(DefaultOverrideFileNames, pwd) if len(overrides) > 0 { if len(overrides) > 1 { logrus.Warnf(\"Found multiple override files with supported names: %s\", strings.Join(overrides, \", \")) logrus.Warnf(\"Using %s\", overrides[0]) } o.ConfigPaths = append(o.ConfigPaths, overrides[0]) } return nil } parent := filepath.Dir(pwd) if parent == pwd { return nil } pwd = parent } }" ∧
+    CV.Gen.c17_body_WithEnv =
+      "{ return func(o *ProjectOptions) error { for k, v := range utils.GetAsEqualsMap(env) { o.Environment[k] = v } return nil } }" ∧
+    CV.Gen.c17_body_WithOsEnv =
+      "{ for k, v := range utils.GetAsEqualsMap(os.Environ()) { if _, set := o.Environment[k]; set { continue } o.Environment[k] = v } return nil }" ∧
+    CV.Gen.c17_body_WithEnvFiles =
+      "{ return func(o *ProjectOptions) error { if len(file) > 0 { o.EnvFiles = file return nil } if v, ok := os.LookupEnv(consts.ComposeDisableDefaultEnvFile); ok { b, err := strconv.ParseBool(v) if err != nil { return err } if b { return nil } } wd, err := o.GetWorkingDir() if err != nil { return err } defaultDotEnv := filepath.Join(wd, \".env\") s, err := os.Stat(defaultDotEnv) if errors.Is(err, fs.ErrNotExist) || errors.Is(err, syscall.ENOTDIR) { return nil } if err != nil { return err } if !s.IsDir() { o.EnvFiles = []string{defaultDotEnv} } return nil } }" ∧
+    CV.Gen.c17_body_WithDotEnv =
+      "{ envMap, err := dotenv.GetEnvFromFile(o.Environment, o.EnvFiles) if err != nil { return err } o.Environment.Merge(envMap) return nil }" ∧
+    CV.Gen.c17_body_GetWorkingDir =
+      "{ if o.WorkingDir != \"\" { return filepath.Abs(o.WorkingDir) } for _, path := range o.ConfigPaths { if path != \"-\" { absPath, err := filepath.Abs(path) if err != nil { return \"\", err } return filepath.Dir(absPath), nil } } return os.Getwd() }" ∧
+    CV.Gen.c17_body_withNamePrecedenceLoad =
+      "{ return func(opts *loader.Options) { if options.Name != \"\" { opts.SetProjectName(options.Name, true) } else if nameFromEnv, ok := options.Environment[consts.ComposeProjectName]; ok && nameFromEnv != \"\" { opts.SetProjectName(nameFromEnv, true) } else { dirname := filepath.Base(absWorkingDir) symlink, err := filepath.EvalSymlinks(absWorkingDir) if err == nil && filepath.Base(symlink) != dirname { logrus.Warnf(\"project has been loaded without an explicit name from a symlink. Using name %q\", dirname) } opts.SetProjectName( loader.NormalizeProjectName(dirname), false, ) } } }" ∧
+    CV.Gen.c17_body_findFiles =
+      "{ candidates := []string{} for _, n := range names { f := filepath.Join(pwd, n) if _, err := os.Stat(f); err == nil { candidates = append(candidates, f) } } return candidates }" ∧
+    CV.Gen.c17_body_absolutePaths =
+      "{ var paths []string for _, f := range p { if f == \"-\" { paths = append(paths, f) continue } abs, err := filepath.Abs(f) if err != nil { return nil, err } f = abs if _, err := os.Stat(f); err != nil { return nil, err } paths = append(paths, f) } return paths, nil }" ∧
+    CV.Gen.c17_body_projectName =
+      "{ defer func() { if details.Environment == nil { details.Environment = map[string]string{} } details.Environment[consts.ComposeProjectName] = opts.projectName }() if opts.projectNameImperativelySet { if NormalizeProjectName(opts.projectName) != opts.projectName { return InvalidProjectNameErr(opts.projectName) } return nil } type named struct { Name string `yaml:\"name\"` } // if user did NOT provide a name explicitly, then see if one is defined // in any of the config files var pjNameFromConfigFile string for _, configFile := range details.ConfigFiles { content := configFile.Content if content == nil { d, err := os.ReadFile(configFile.Filename) if err != nil { return fmt.Errorf(\"failed to read file %q: %w\", configFile.Filename, err) } content = d configFile.Content = d } var n named r := bytes.NewReader(content) decoder := yaml.NewDecoder(r) for { err := decoder.Decode(&n) if err != nil && errors.Is(err, io.EOF) { break } if err != nil { break } if n.Name != \"\" { pjNameFromConfigFile = n.Name } } } if !opts.SkipInterpolation { interpolated, err := interp.Interpolate( map[string]interface{}{\"name\": pjNameFromConfigFile}, *opts.Interpolate, ) if err != nil { return err } pjNameFromConfigFile = interpolated[\"name\"].(string) } pjNameFromConfigFile = NormalizeProjectName(pjNameFromConfigFile) if pjNameFromConfigFile != \"\" { opts.projectName = pjNameFromConfigFile } return nil }" ∧
+    CV.Gen.c17_body_NormalizeProjectName =
+      "{ r := regexp.MustCompile(\"[a-z0-9_-]\") s = strings.ToLower(s) s = strings.Join(r.FindAllString(s, -1), \"\") return strings.TrimLeft(s, \"_-\") }" ∧
+    CV.Gen.c17_body_GetEnvFromFile =
+      "{ envMap := make(map[string]string) for _, dotEnvFile := range filenames { abs, err := filepath.Abs(dotEnvFile) if err != nil { return envMap, err } dotEnvFile = abs s, err := os.Stat(dotEnvFile) if errors.Is(err, fs.ErrNotExist) || errors.Is(err, syscall.ENOTDIR) { return envMap, fmt.Errorf(\"Couldn't find env file: %s\", dotEnvFile) } if err != nil { return envMap, err } if s.IsDir() { if len(filenames) == 0 { return envMap, nil } return envMap, fmt.Errorf(\"%s is a directory\", dotEnvFile) } b, err := os.ReadFile(dotEnvFile) if os.IsNotExist(err) { return nil, fmt.Errorf(\"Couldn't read env file: %s\", dotEnvFile) } if err != nil { return envMap, err } env, err := ParseWithLookup(bytes.NewReader(b), func(k string) (string, bool) { v, ok := currentEnv[k] if ok { return v, true } v, ok = envMap[k] return v, ok }) if err != nil { return envMap, fmt.Errorf(\"failed to read %s: %w\", dotEnvFile, err) } for k, v := range env { envMap[k] = v } } return envMap, nil }" ∧
+    CV.Gen.c17_body_MappingMerge =
+      "{ for k, v := range o { if _, set := m[k]; !set { m[k] = v } } return m }" ∧
+    CV.Gen.c17_body_GetAsEqualsMap =
+      "{ m := make(map[string]string) for _, v := range em { key, val, found := strings.Cut(v, \"=\") if found { m[key] = val } } return m }" := by
+  exact ⟨rfl, rfl, rfl, rfl, rfl, rfl, rfl, rfl, rfl, rfl, rfl, rfl, rfl, rfl, rfl, rfl, rfl, rfl⟩
 
 /-- the character class and the cutset, read as sets of characters, are the predicates of the model -/
 theorem regex_class_is_isNameChar :
@@ -195,18 +240,36 @@ theorem configFileEnv_unset (w : World) (o : PO) (h : o.configs = []) (hf : o.en
     applyOpt w o .withConfigFileEnv = .ok o := by
   simp only [applyOpt, withConfigFileEnv, h, hf]
 
-/-- a `COMPOSE_FILE` entry that does not exist is an error, whatever the other entries are -/
-theorem resolvePaths_missing (w : World) (pre post : List Str) (p : Str) (hp : List.lookup p w.paths = none)
-    (hpre : ∀ q ∈ pre, (List.lookup q w.paths).isSome) :
+/-- a `COMPOSE_FILE` entry that does not exist (and is not `-`) is an error, whatever the other entries are -/
+theorem resolvePaths_missing (w : World) (pre post : List Str) (p : Str) (hp : pathRef w p = none)
+    (hpre : ∀ q ∈ pre, (pathRef w q).isSome) :
     resolvePaths w (pre ++ p :: post) = .error .configNotFound := by
   induction pre with
   | nil => simp [resolvePaths, hp]
   | cons q qs ih =>
     have hq := hpre q List.mem_cons_self
-    cases hl : List.lookup q w.paths with
+    cases hl : pathRef w q with
     | none => rw [hl] at hq; cases hq
     | some r =>
       simp only [List.cons_append, resolvePaths, hl, ih (fun x hx => hpre x (List.mem_cons_of_mem _ hx))]
+
+/-- the entry `-` always resolves (to standard input), without looking at the file system -/
+theorem stdin_path_resolves (w : World) : pathRef w ['-'] = some { dir := 0, file := none, stdin := true } := by
+  simp [pathRef]
+
+/-- `GetWorkingDir` skips `-`: with standard input first, the project directory is decided by the remaining paths -/
+theorem stdin_skipped_for_project_dir (w : World) (o : PO) (c : CfgRef) (cs : List CfgRef) (hs : c.stdin = true)
+    (hc : o.configs = c :: cs) : projDirId w o = projDirId w { o with configs := cs } := by
+  simp [projDirId, hc, firstFileDir, hs]
+
+/-- `ReadConfigFiles` reads a `-` entry from standard input -/
+theorem stdin_is_read (w : World) (c : CfgRef) (cs : List CfgRef) (hs : c.stdin = true) :
+    readConfigs w (c :: cs) =
+      match readConfigs w cs with
+      | .ok r => .ok (w.stdinDocs :: r)
+      | .error e => .error e := by
+  simp only [readConfigs, hs, if_true]
+  cases readConfigs w cs <;> rfl
 
 /-- `COMPOSE_FILE=a:b:c` (entries without the separator) is split back into `a`, `b`, `c` -/
 theorem splitOn_join (c : Char) (parts : List Str) (hne : parts ≠ []) (h : ∀ p ∈ parts, c ∉ p) :
@@ -292,12 +355,66 @@ theorem no_config_no_project (w : World) (o : PO) (h : o.configs = []) : load w 
 /-- without `WithWorkingDirectory` the project directory is the directory of the FIRST config path, so the file
     selection also decides the name fallback and the default `.env` -/
 theorem project_dir_follows_first_config (w : World) (o : PO) (c : CfgRef) (cs : List CfgRef)
-    (hw : o.workDir = none) (hc : o.configs = c :: cs) : projDir w o = (dirNode w c.dir).name := by
-  simp [projDir, projDirId, hw, hc]
+    (hw : o.workDir = none) (hc : o.configs = c :: cs) (hs : c.stdin = false) :
+    projDir w o = (dirNode w c.dir).name := by
+  simp [projDir, projDirId, hw, hc, firstFileDir, hs]
 
 theorem project_dir_is_workdir (w : World) (o : PO) (d : Nat) (hw : o.workDir = some d) :
     projDir w o = (dirNode w d).name := by
   simp [projDir, projDirId, hw]
+
+/-! ## `strings.Split` on `COMPOSE_FILE`, `strings.Cut` on `KEY=VALUE` entries -/
+
+/-- `strings.Split` loses nothing: joining the pieces with the separator gives the string back — for ANY
+    separator (multi-character `COMPOSE_PATH_SEPARATOR` included) and any value (empty entries included) -/
+theorem splitOn_join_inv (sep s : Str) : SplitLemmas.joinSep sep (splitOn sep s) = s :=
+  SplitLemmas.splitOn_join_inv sep s
+
+/-- leftmost-first, non-overlapping: the first piece ends at the FIRST occurrence of the separator and the rest
+    of the value is split the same way (this is what makes `a:::b` with separator `::` give `a`, `:b`) -/
+theorem splitOn_first (sep : Str) (hsep : sep ≠ []) (s : Str) (i : Nat) (h : indexOf sep s = some i) :
+    splitOn sep s = s.take i :: splitOn sep (s.drop (i + sep.length)) :=
+  SplitLemmas.splitOn_first sep hsep s i h
+
+/-- what `indexOf … = some i` means: the separator occurs at position `i` -/
+theorem indexOf_some_spec (pat s : Str) (i : Nat) (h : indexOf pat s = some i) :
+    i + pat.length ≤ s.length ∧ s = s.take i ++ pat ++ s.drop (i + pat.length) :=
+  SplitLemmas.indexOf_some_spec pat s i h
+
+/-- a value without the separator is one entry -/
+theorem splitOn_no_sep (sep s : Str) (h : indexOf sep s = none) : splitOn sep s = [s] :=
+  SplitLemmas.splitOn_no_sep sep s h
+
+-- empty entries and multi-character separators, as `strings.Split` has them
+example : splitOn ":".toList "a::b".toList = strs ["a", "", "b"] := by decide
+example : splitOn ":".toList "x:".toList = strs ["x", ""] := by decide
+example : splitOn ":".toList "".toList = strs [""] := by decide
+example : splitOn "::".toList "a:::b".toList = strs ["a", ":b"] := by decide
+example : splitOn "ab".toList "xabab".toList = strs ["x", "", ""] := by decide
+
+/-- `strings.Cut(s, "=")` not found: exactly the entries without `=` -/
+theorem splitEq_none_iff (s : Str) : splitEq s = none ↔ '=' ∉ s := SplitLemmas.splitEq_none_iff s
+
+/-- the cut is at the FIRST `=`: the key has none, the value is everything after it (further `=` included) -/
+theorem splitEq_some_iff (s k v : Str) : splitEq s = some (k, v) ↔ s = k ++ '=' :: v ∧ '=' ∉ k :=
+  SplitLemmas.splitEq_some_iff s k v
+
+/-- `utils.GetAsEqualsMap`, duplicate rule: the LAST entry for a key wins; an entry without `=` changes nothing -/
+theorem asEqualsMap_last_wins (l : List Str) (s : Str) (k : Str) :
+    (asEqualsMap (l ++ [s])).get k =
+      match splitEq s with
+      | some (k', v) => if k = k' then some v else (asEqualsMap l).get k
+      | none => (asEqualsMap l).get k := SplitLemmas.asEqualsMap_last_wins l s k
+
+/-- a final `K=V` entry binds `K` to `V` whatever came before (`V` may contain `=`, `K` may be empty) -/
+theorem asEqualsMap_entry (l : List Str) (k v : Str) (hk : '=' ∉ k) :
+    (asEqualsMap (l ++ [k ++ '=' :: v])).get k = some v := SplitLemmas.asEqualsMap_entry l k v hk
+
+theorem asEqualsMap_no_eq_dropped (l : List Str) (s : Str) (hs : '=' ∉ s) :
+    asEqualsMap (l ++ [s]) = asEqualsMap l := SplitLemmas.asEqualsMap_no_eq_dropped l s hs
+
+example : (asEqualsMap (strs ["K=a", "novalue", "K=b=c", "=x"])).get "K".toList = some "b=c".toList := by decide
+example : (asEqualsMap (strs ["K=a", "novalue", "K=b=c", "=x"])).get [] = some "x".toList := by decide
 
 /-! ## the project environment -/
 
@@ -578,6 +695,10 @@ theorem dotenv_refs_above (above earlier out : Env) (k : Str) (t : List Template
 
 /-! ## non-vacuity: concrete worlds on which the hypotheses of the theorems hold -/
 
+-- the examples below replace the env-file scanner by the grammar evaluator (`parseFile_renderSimple`) before `decide`;
+-- here the scanner itself runs in the kernel on a one-line file (two lines already take minutes) and gives the same map
+example : (parseFile (fun _ => none) (renderSimple [("A".toList, "b".toList)])).toOption = some [("A".toList, "b".toList)] := by decide
+example : (toErr (Dotenv.evalLines (fun _ => none) ([("A".toList, "b".toList)].map simpleLine))).toOption = some [("A".toList, "b".toList)] := by decide
 -- explicit name over COMPOSE_PROJECT_NAME over file over directory
 example : nameOf (run exW (.withName "ex".toList :: exDoc)) = some "ex" := by eval_run; decide
 example : nameOf (run exW exDoc) = some "os" := by eval_run; decide
